@@ -890,7 +890,7 @@ def run(ctx):
         for s_ in segs:
             if str(s_[0].get('name', '')).startswith('gateway-'):
                 kinds = set(str(e.get('i', '')).replace('eth/', '').split(' ')[0] for e in s_ if e['ev'] == 'emit')
-                if not {'udp4', 'udp6', 'tcp4', 'tcp6', 'icmp4', 'icmp6', 'arp'} <= kinds or nframes(s_) < 25:
+                if not {'udp4', 'udp6', 'tcp4', 'tcp6', 'icmp4', 'icmp6', 'arp'} <= kinds or nframes(s_) < 15:
                     raise vlib.Inconclusive('gateway scenario %s sent too little through the gateway: %s' % (s_[0].get('name'), sorted(kinds)))
     ctx.assumptions += ['pkg/sleep builds only with the verif-tagged assembly (hook H1)',
                         'the tap of harness/wire.Link and the far end of the socketpair show exactly the bytes the stack handed to the link',
